@@ -130,6 +130,26 @@ def gen_live_throw(rng, cid):
             f'seed={rng.below(1 << 30)} slow={slow}\nthread 0: run ;\nendcase')
 
 
+def gen_stall_cases(rng, base_seed, rounds=1):
+    """C11c directed program: 2..2W chunks of one index on W >= 2 workers (mostly W: every worker owns one
+    chunk), exactly one index throws; every participant that did not throw waits at the point `bulk.dec`
+    (between anything finish() did before the decrement and `--tasks_remaining`) until the thrower has
+    decremented, the thrower waits before its exchange until the others are there (bounded waits): the
+    thrower stores its exception and decrements while the others sit in that window; the completion
+    must be set_error with the thrown exception.  Default pool and second pool."""
+    out = []
+    i = 0
+    for _ in range(rounds):
+      for pool in (0, 1):
+        for threads in (4, 6, 8, 12):
+            w = threads // 2 if pool == 1 else threads - threads // 2
+            for n in [w, w, max(2, w - 1)]:
+                out.append(f'case s{base_seed}n{i} kind=live threads={threads} pool={pool} S={rng.below(4)} n={n} '
+                           f'nthrow=1 seed={rng.below(1 << 30)} slow=0 stall=1\nthread 0: run ;\nendcase')
+                i += 1
+    return out
+
+
 DEFECT_CASES = [
     # Shape = uint64, n = 2^32 + 5 on the real bulk: 5 calls (finding C11-arith-wrap)
     'case known-trunc kind=live threads=4 pool=0 S=3 n=4294967301 nthrow=0 seed=1 slow=0\nthread 0: run ;\nendcase',
@@ -235,7 +255,8 @@ def main():
             groups['bulk'].append(gen_arith(rng, f'a{base_seed}n{i}', budget))
         for i in range(int((1200 if thorough else 90) * scale)):
             groups['bulk'].append(gen_live(rng, f'l{base_seed}n{i}', 2000000 if thorough else 200000))
-        for i in range(int((200 if thorough else 16) * scale)):
+        groups['bulk'] += gen_stall_cases(rng, base_seed, 4 if thorough else 1)
+        for i in range(int((200 if thorough else 12) * scale)):
             groups['bulk'].append(gen_live_throw(rng, f't{base_seed}n{i}'))
 
     def run_groups(gr, tag):
